@@ -8,14 +8,14 @@ from hyverif import selftest
 PROPS = ["C%02d" % i for i in range(1, 21)]
 vs = []
 for base in ("benign", "benign_pending"):
-    for pp in sorted(glob.glob(os.path.join(VERIF, "selftest", base, "*", "patch.diff"))):
+    for pp in sorted(glob.glob(os.path.join(VERIF, "selftest", base, sys.argv[1] if len(sys.argv) > 1 else "*", "patch.diff"))):
         name = os.path.basename(os.path.dirname(pp))
         own = name.split("-")[0]
         for pid in PROPS:
             if pid == own:
                 continue
             vs.append({"kind": "benign", "name": name, "property": pid, "patch": pp, "reverse": False, "expect": 0, "rules": []})
-with ThreadPoolExecutor(8) as ex:
+with ThreadPoolExecutor(14) as ex:
     res = list(ex.map(lambda v: selftest.run_variant(v, "/repo"), vs))
 bad = [r for r in res if r["status"] != "ok"]
 for r in bad:
